@@ -118,6 +118,15 @@ def scopedInsert (m : ScopedCrateTypes) (crate ty : Str) (orInsert : Bool) : Sco
     else if Str.lt crate k then (if orInsert then (crate, [ty]) :: (k, v) :: rest else (k, v) :: rest)
     else (k, v) :: scopedInsert rest crate ty orInsert
 
+/-- `entry(crate).or_insert_with(BTreeSet::new)`: make sure the (sorted) map has an entry for `crate` -/
+def scopedEnsure (m : ScopedCrateTypes) (crate : Str) : ScopedCrateTypes :=
+  match m with
+  | [] => [(crate, [])]
+  | (k, v) :: rest =>
+    if k == crate then (k, v) :: rest
+    else if Str.lt crate k then (crate, []) :: (k, v) :: rest
+    else (k, v) :: scopedEnsure rest crate
+
 /-- `used_imports`.  `data.import_types` and `all_types` are hash containers: `imports` is the set
 in some iteration order and `firstOther name` is "the first crate ≠ current whose type set contains
 `name`" in the map's iteration order (only consulted by the re-export fallback). -/
@@ -131,8 +140,8 @@ def usedImports (d : ParsedData) (all : List (Str × List Str)) (imports : List 
     match all.find? (·.1 == imp.baseCrate) with
     | some (_, names) =>
       if imp.typeName == s%"*" then
-        -- `and_modify` without `or_insert`: only extends an entry that already exists
-        names.foldl (fun m n => scopedInsert m imp.baseCrate n false) m
+        -- `and_modify(extend).or_insert_with(all)`: the entry holds every type of that crate afterwards
+        names.foldl (fun m n => scopedInsert m imp.baseCrate n true) (scopedEnsure m imp.baseCrate)
       else if names.contains imp.typeName then scopedInsert m imp.baseCrate imp.typeName true
       else fallback m imp.typeName
     | none => fallback m imp.typeName) []
